@@ -301,6 +301,12 @@ def runEF (c : Case) : List String :=
   let (_, _, lines) := c.words.foldl (fun (acc : EFState Float × Nat × List String) op =>
     let (s, cur, out) := acc
     if op.startsWith "P" then (s, ((op.drop 1).toString.toNat?).getD 0, out)
+    else if op.startsWith "k" then
+      -- WakePotentialMap::update = wakePotential() of the field, offsets := the nb·n wake potentials, updateSM():
+      -- the map IS the y-kick map of those offsets (no differing offset, table entry or output cell)
+      let k := mk false
+      let s' := freeze k (efWake k tr (profOf cur) s)
+      (s', cur, out ++ ["ops " ++ op, s!"ints 0 0 0 {nb * n} {((op.drop 1).toString.toNat?).getD 0}"])
     else
       let k := mk (op == "c")
       let prof := profOf cur
